@@ -12,17 +12,17 @@ RULE = ('1..3 per-thread programs merged by a generated schedule; ops: standalon
         'nested map_a / shared_cache_a records and nested samples, samples = PERF_Event window with or without the '
         'USTACK flag, optional thread-info record, optional stack header whose count is below/equal/above the data '
         'supplied, 0..4 data records; load addresses from a small pool (equal, adjacent a/a+1, duplicates with '
-        'different uuids); frames at address-1, address, address+1, 0 and 2^64-1. Oracle (declarative): exactly one '
+        'different uuids, address 0 included); frames at address-1, address, address+1, 0 and 2^64-1; header counts up to 2^64-1. Oracle (declarative): exactly one '
         'callstack per sample that has the flag and a header, stamped with the START timestamp and thread; frames == '
         'first N data words; every frame attributed to the greatest announced address <= frame (first identity wins), '
         'offset = frame - address, else no image. Observed through CallstacksParser over TracesParser and through '
-        'PyKdebugParser.callstacks on the same events as a file. Non-trivial: >= 2 images and a frame within +-1 of a '
+        'PyKdebugParser.callstacks on the same events as a file; in formatted_callstacks a frame with an image is printed with that uuid on its line, a frame without image with no announced uuid. Non-trivial: >= 2 images and a frame within +-1 of a '
         'load address, or a duplicate address, or header count != data count; distinct by stream digest.')
 ASSUMPTIONS = ['a shared-cache record counts as announced at the record or at its launch END, and "earlier" is read as '
                'before the sample\'s START or before its END: a frame is accepted if any of these readings gives its attribution',
                'shared_cache_a records are generated only inside launch windows']
 
-ADDRS = [0x1000, 0x1001, 0x2000, 0x100000000, 0x100004000, 0x7fff20000000, 1, 2 ** 63]
+ADDRS = [0x1000, 0x1001, 0x2000, 0x100000000, 0x100004000, 0x7fff20000000, 1, 2 ** 63, 0]      # an image may be announced at address 0
 TIDS = [0x61, 0x62, 0x63]
 
 
@@ -144,6 +144,14 @@ def observe_file(evs):
     return list(PyKdebugParser().callstacks(BudgetReader(blob)))
 
 
+def observe_lines(evs):
+    from pykdebugparser.pykdebugparser import PyKdebugParser
+    recs = [kmodel.ev_record((1000 + 7 * i, tid, EV.eid(code) | q, data)) for i, (tid, code, q, data) in enumerate(evs)]
+    blob = kmodel.v2_file([], 0, recs)
+    p = PyKdebugParser()
+    return [str(x) for x in p.formatted_callstacks(BudgetReader(blob))]
+
+
 def compare(stacks, samples, ts_of):
     if len(stacks) != len(samples):
         raise Violation('callstack-count', f'{len(stacks)} callstacks for {len(samples)} stack samples')
@@ -171,6 +179,22 @@ def prop_stream(ctx, case):
     compare(stacks, samples, lambda k: real[k].timestamp)
     stacks2 = guard(observe_file, evs)
     compare(stacks2, samples, lambda k: 1000 + 7 * k)
+    # the rendered listing says the same as the objects: a frame attributed to an image is printed with that image (its
+    # uuid appears on the frame's line), a frame without image is not printed with any announced uuid
+    lines = guard(observe_lines, evs)
+    if len(lines) != len(stacks2):
+        raise Violation('callstack-lines', f'{len(lines)} rendered callstacks for {len(stacks2)} callstack objects')
+    known = {uu(i).hex() for i in range(11)}
+    for cs, text in zip(stacks2, lines):
+        rows = text.split('\n')[1:]
+        if len(rows) != len(cs.frames):
+            raise Violation('callstack-lines', f'{len(rows)} frame lines for {len(cs.frames)} frames: {text!r}')
+        for f, row in zip(cs.frames, rows):
+            flat = row.replace('-', '').lower()
+            u = (f.uuid.bytes if isinstance(f.uuid, _uuid.UUID) else f.uuid)
+            shown = [h for h in known if h in flat]
+            if (u is not None and u.hex() not in flat) or (u is None and shown):
+                raise Violation('frame-line', f'frame {f.address:#x} attributed to {u.hex() if u else None} + {f.offset} is printed as {row.strip()!r}')
     imgs = [e for e in evs if e[1] in ('DYLD_uuid_map_a', 'DYLD_uuid_shared_cache_a')]
     addrs = [int.from_bytes(e[3][16:24], 'little') for e in imgs]
     dup = len(set(addrs)) < len(addrs)
@@ -191,7 +215,7 @@ PROPS = {'stream': prop_stream}
 
 
 def op_strategy():
-    ai, ui = st.integers(0, 7), st.integers(0, 9)
+    ai, ui = st.integers(0, 8), st.integers(0, 9)
     frames = st.lists(st.integers(0, 39), max_size=12)
     # the header count is a full 64-bit word: mostly small, sometimes far above anything the data records can supply
     count = st.one_of(st.integers(0, 14), st.integers(0, 14), st.integers(0, 14),
